@@ -55,7 +55,7 @@ def shards(tier):
 
 def floors(tier):
     f = {"cases": 15000, "cases_with_errors": 4000, "arrangements": 3000, "chains": 300, "inner_store_refs": 100,
-         "siblings_next_to_ref": 300, "hostile_name_resolutions": 2000, "recursive_cases": 1000, "recursive_with_asserting_siblings": 300,
+         "siblings_next_to_ref": 300, "hostile_name_resolutions": 2000, "recursive_cases": 1000, "recursive_with_asserting_siblings": 300, "near_identical_url_cases": 2000,
          "recursion_depth3plus": 200, "model_crosschecks": 2000, "max_scope_depth": 3, "transform_selfcheck_ok": 3000, "foreign_id_keywords_on_path": 500, "relative_id_in_store_doc": 200, "reused_after_validate": 5000,
          "uri_calibration": 60}
     for m in ("noid", "rootid", "rootid#", "nested"):
@@ -223,6 +223,43 @@ def known_probes(ctx):
             compare(ctx, d, S, S0, {}, {}, inst, {"probe": "own id keyword next to $ref"}, mech=OWN_ID_MECH, model=False)
 
 
+def near_identical_urls(ctx):
+    """Two documents whose URLs differ only in the case of the path, a query string, a trailing slash or an escape are
+    two documents: a reference to one is the schema written in THAT one."""
+    pairs = [("Item.json", "item.json"), ("t.json?n=1", "t.json?n=2"), ("dir/", "dir"), ("a%41.json", "aA.json"),
+             ("x.json", "X.JSON"), ("q.json?A=1", "q.json?a=1"), ("e%2fa.json", "e%2Fa.json")]
+    leaves = [({"type": "integer"}, {"type": "string"}), ({"maxLength": 1}, {"minLength": 3}), ({"enum": [1]}, {"enum": ["s"]})]
+    insts = [{"a": 1, "b": 1}, {"a": "s", "b": "s"}, {"c": 1, "d": "s"}, {"c": "s", "d": 1}, {"b": 1}, {"d": "s", "a": "sss"}]
+    for d in impl.DRAFTS:
+        idk = impl.IDKW[d]
+        for (pa, pb) in pairs:
+            for (la, lb) in leaves:
+                for where in ("store", "handler", "mixed"):
+                    for flip in (False, True):
+                        base = R.STORE_DIR if where != "handler" else R.HANDLER_DIR
+                        base_b = R.HANDLER_DIR if where == "mixed" else base
+                        ua, ub = base + "pairs/" + pa, base_b + "pairs/" + pb
+                        da = dict(la, definitions={"x": lb})
+                        db = dict(lb, definitions={"x": la})
+                        docs = {ua: da, ub: db}
+                        store = {u: v for u, v in docs.items() if u.startswith(R.STORE_DIR)}
+                        hdocs = {u: v for u, v in docs.items() if u.startswith(R.HANDLER_DIR)}
+                        props = [("a", {"$ref": ua}), ("b", {"$ref": ub}), ("c", {"$ref": ua + "#/definitions/x"}),
+                                 ("d", {"$ref": ub + "#/definitions/x"})]
+                        if flip:
+                            props.reverse()
+                        S = {idk: R.ROOT_URL, "properties": dict(props)}
+                        try:
+                            S0 = R.inline(d, S, dict(docs))
+                        except R.InlineError:
+                            ctx.count("transform_selfcheck_failed")
+                            continue
+                        for inst in insts:
+                            ctx.count("near_identical_url_cases")
+                            compare(ctx, d, S, S0, store, hdocs, inst, {"probe": "near-identical urls", "pair": [pa, pb], "where": where},
+                                    model=False)
+
+
 def recursive_part(ctx, rng, n):
     for i in range(n):
         d = impl.DRAFTS[i % 4]
@@ -283,6 +320,8 @@ def run(ctx):
         if bad:
             raise RuntimeError("model calibration failed: %r" % bad[:3])
         known_probes(ctx)
+    if ctx.shard == 1 % ctx.nshards:
+        near_identical_urls(ctx)
     slog = ScopeLog()
     slog.install()
     try:
